@@ -260,3 +260,22 @@ def final_coverage_zero(r):
     if k < 0:
         raise MachineryError("TLC printed no coverage report")
     return [ln.strip() for ln in text[k:].splitlines() if re.search(r"^<\w+ line .*>: 0:0$", ln.strip())]
+
+
+MODULE_FILES = ("go.mod", "go.sum", "go.work", "go.work.sum", "vendor/modules.txt")
+
+
+def untidy_module(feature, pkg, gomod, gosum):
+    """An untidy-but-resolvable module (class "untidy-module" of Pipeline.tla) -> (extra source files, go.mod text, go.sum text).
+    Under the go command's default -mod=readonly the package `pkg` then fails to load; nothing may rewrite go.mod / go.sum.
+    Such worlds must be run WITHOUT GOFLAGS=-mod=mod (pass env={"GOFLAGS": ""}), i.e. the way a user runs mockery."""
+    if feature == "replace-without-require":
+        files = {"localdep/go.mod": "module example.com/localdep\n\ngo 1.23\n",
+                 "localdep/dep.go": "package localdep\n\n// T lives in a module that go.mod only mentions in a replace directive.\ntype T int\n",
+                 f"{pkg}/uses_dep.go": f"package {pkg}\n\nimport \"example.com/localdep\"\n\nvar _ localdep.T\n"}
+        return files, gomod + "\nreplace example.com/localdep => ./localdep\n", gosum
+    if feature == "missing-gosum-line":
+        files = {f"{pkg}/uses_testify.go": f"package {pkg}\n\nimport _ \"github.com/stretchr/testify/mock\"\n"}
+        kept = "".join(ln + "\n" for ln in gosum.splitlines() if not ln.startswith("github.com/stretchr/testify "))
+        return files, gomod, kept
+    raise MachineryError("unknown untidy-module shape: " + str(feature))
